@@ -225,7 +225,7 @@ func init() {
 			oracleC02(x, in, a, c, r)
 			return in.M() >= 2
 		}
-		g := gridSpec{P1: allP1, P2: allP2, P4: []int{0, 1}, P5: []int{2, 0}, SZ: []int{0, 1, 2, 3, 4}, Virt: []bool{false, true}}.list()
+		g := gridSpec{P1: allP1, P2: allP2, P4: []int{0, 1}, P5: []int{2, 0}, SZ: []int{0, 1, 2, 3, 4, 10}, Virt: []bool{false, true}}.list()
 		rnd := gridSpec{P1: []int{2}, P2: allP2, P4: []int{1}, P5: []int{2}, SZ: []int{4}, Virt: []bool{false, true}}.list()
 		other := gridSpec{P1: allP1, P2: []int{0}, P4: []int{2, 3, 4, 6}, P5: []int{1, 3}, SZ: []int{4}}.list()
 		cheap := gridSpec{P1: allP1, P2: allP2, P4: []int{1}, P5: []int{2}, SZ: []int{4}, Virt: []bool{false, true}}.list()
@@ -234,7 +234,7 @@ func init() {
 		d := tierPick(tier, 4, 5)
 		ps := []*Pass{
 			{Name: "G-main", Space: spaceG(1, d, 0, nil), Eval: stdEval("C02", staticGrid(g), or),
-				Bound: fmt.Sprintf("all edge lists with <=%d edges x {greedy,dfs} x {ns,lp} x {sink,valign} x {polyline,noop} x 5 size modes x virtual-node output {off,on}", d)},
+				Bound: fmt.Sprintf("all edge lists with <=%d edges x {greedy,dfs} x {ns,lp} x {sink,valign} x {polyline,noop} x 6 size modes (none, fixed, per-node, partial map, partial map over a fixed size, the same with a node listed as 0x0) x virtual-node output {off,on}", d)},
 			{Name: "G-other-algs", Space: spaceG(1, d, 0, nil), Eval: stdEval("C02", staticGrid(other), or),
 				Bound: fmt.Sprintf("all edge lists with <=%d edges x {greedy,dfs} x ns x {packright,ns,bk,bk1} x {straight,ortho} x partial size map over fixed size", d)},
 			{Name: "G-random-greedy", Space: spaceG(1, 4, 0, func(in Input, a *Analysis) bool { return !a.DAG }), Eval: stdEval("C02", staticGrid(rnd), or),
